@@ -1,7 +1,8 @@
 package main
 
 // C18 — keep_fields / remove_fields select exactly the configured paths.
-// Real code: the two plugins through the plugin registry (Factory/Start/Do), cfg.ParseNestedFields,
+// Real code: the two plugins through the plugin registry (Factory, the configuration set directly or - every second case -
+// decoded from JSON text by pipeline.GetConfig, Start/Do/Stop), cfg.ParseNestedFields,
 // cfg.ParseFieldSelector, insane-json Dig/Suicide.
 //
 //	which=0 remove_fields, which=1 keep_fields
@@ -19,8 +20,11 @@ package main
 //	which=5 insane-json vs Base/Json.v dig / swap_remove  case = (0 (#seg ...) tree) | (1 i object)
 
 import (
+	"encoding/json"
 	"fmt"
+	"hash/fnv"
 	"strings"
+	"unicode/utf8"
 
 	"github.com/ozontech/file.d/cfg"
 	"github.com/ozontech/file.d/fd"
@@ -40,7 +44,9 @@ var params = &pipeline.ActionPluginParams{
 	Logger:              zap.NewNop().Sugar(),
 }
 
-func newPlugin(keep bool, sels []string) pipeline.ActionPlugin {
+// viaJSON: the configuration is decoded from the JSON text a pipeline file would carry (pipeline.GetConfig:
+// cfg.DecodeConfig + cfg.Parse, as fd does); otherwise the Fields of the factory's Config are set directly
+func newPlugin(keep bool, sels []string, viaJSON bool) pipeline.ActionPlugin {
 	name := "remove_fields"
 	if keep {
 		name = "keep_fields"
@@ -50,15 +56,39 @@ func newPlugin(keep bool, sels []string) pipeline.ActionPlugin {
 		panic(err)
 	}
 	pl, cf := info.Factory()
-	switch c := cf.(type) {
-	case *keep_fields.Config:
-		c.Fields = sels
-	case *remove_fields.Config:
-		c.Fields = sels
+	if viaJSON {
+		text, err := json.Marshal(map[string]any{"fields": sels})
+		if err != nil {
+			panic(err)
+		}
+		cf, err = pipeline.GetConfig(info, text, nil)
+		if err != nil {
+			panic(err)
+		}
+	} else {
+		switch c := cf.(type) {
+		case *keep_fields.Config:
+			c.Fields = sels
+		case *remove_fields.Config:
+			c.Fields = sels
+		}
 	}
 	p := pl.(pipeline.ActionPlugin)
 	p.Start(cf, params)
 	return p
+}
+
+// the route is a function of the case (a replay takes the same one): JSON text for every second case whose selectors are
+// valid UTF-8 (encoding/json would replace other bytes)
+func jsonRoute(cs hx.Sx, sels []string) bool {
+	for _, s := range sels {
+		if !utf8.ValidString(s) {
+			return false
+		}
+	}
+	h := fnv.New32a()
+	h.Write([]byte(hx.String(cs)))
+	return h.Sum32()&1 == 0
 }
 
 func strs(v hx.Sx) []string {
@@ -93,7 +123,7 @@ func execPlugin(keep bool, cs hx.Sx) hx.Sx {
 		return hx.L(hx.I(9), hx.S("config rejected: "+err.Error()))
 	}
 	var p pipeline.ActionPlugin
-	if msg := hx.Catch(func() { p = newPlugin(keep, sels) }); msg != "" {
+	if msg := hx.Catch(func() { p = newPlugin(keep, sels, jsonRoute(cs, sels)) }); msg != "" {
 		return hx.L(hx.I(9), hx.S("Start "+msg))
 	}
 	first, msg := doOnce(p, text)
@@ -103,6 +133,9 @@ func execPlugin(keep bool, cs hx.Sx) hx.Sx {
 	second, msg := doOnce(p, text)
 	if msg != "" {
 		return hx.L(hx.I(9), hx.S("second Do: "+msg))
+	}
+	if msg := hx.Catch(func() { p.Stop() }); msg != "" {
+		return hx.L(hx.I(9), hx.S("Stop: "+msg))
 	}
 	res := first
 	if hx.String(first) != hx.String(second) {
@@ -125,7 +158,7 @@ func execSeq(keep bool, cs hx.Sx) hx.Sx {
 		return hx.L(hx.I(9), hx.S("config rejected: "+err.Error()))
 	}
 	var p pipeline.ActionPlugin
-	if msg := hx.Catch(func() { p = newPlugin(keep, sels) }); msg != "" {
+	if msg := hx.Catch(func() { p = newPlugin(keep, sels, jsonRoute(cs, sels)) }); msg != "" {
 		return hx.L(hx.I(9), hx.S("Start "+msg))
 	}
 	overall := 0
@@ -140,6 +173,9 @@ func execSeq(keep bool, cs hx.Sx) hx.Sx {
 			overall = tag
 		}
 		rows = append(rows, hx.L(hx.I(tag), res))
+	}
+	if msg := hx.Catch(func() { p.Stop() }); msg != "" {
+		return hx.L(hx.I(9), hx.S("Stop: "+msg))
 	}
 	return hx.L(hx.I(overall), hx.L(rows...), pathsSx(ps))
 }
